@@ -94,6 +94,20 @@ def install(I):
     def _exists(I, st, args, kw):
         yield SV(BOOL, quant(I, st, args, False)), st
 
+    @reg("exists_w")
+    def _exists_w(I, st, args, kw):
+        """exists(dom, f) with a ghost witness hint (a contract-expression string).  Symbolically the witness is
+        substituted (no existential left for the solver); natively (pyvc.rt) it is a plain `exists`."""
+        dom, lam, hint = args[0], args[1], args[2]
+        try:
+            w = I.eval_spec_value(hint, st, {})
+        except Unsupported:
+            yield SV(BOOL, quant(I, st, [dom, lam], False)), st
+            return
+        inside = I.contains(st, dom, w)
+        outs = list(I.call_lambda(st, lam, [w], {}))
+        yield SV(BOOL, z3.And(inside, I.truthy(outs[0][0]))), st
+
     @reg("implies")
     def _implies(I, st, args, kw):
         yield SV(BOOL, z3.Implies(I.truthy(args[0]), I.truthy(args[1]))), st
@@ -889,6 +903,31 @@ def install(I):
     @reg("next")
     def _next(I, st, args, kw):
         raise Unsupported("next()")
+
+    @reg("copy.deepcopy")
+    def _deepcopy(I, st, args, kw):
+        """A-copy: containers are values in this model, so a deep copy of a container of scalars is the same value
+        with no home; objects go through the per-class deep-copy model"""
+        v = args[0]
+        if isinstance(v, SV) and v.kind.tag in ("set", "dict", "list"):
+            if contains_obj(v.kind):
+                raise Unsupported("deepcopy of a container holding objects")
+            yield SV(v.kind, v.tree), st
+            return
+        if isinstance(v, SV) and v.kind.tag == "obj":
+            h = I.lib.get("deepcopy:obj")
+            if h is None:
+                raise Unsupported("deepcopy of an object")
+            yield from h.fn(I, st, [v], kw)
+            return
+        yield v, st
+    I.lib["copy.copy"] = I.lib["copy.deepcopy"]
+
+    def contains_obj(k):
+        if k.tag == "obj":
+            return True
+        return any(contains_obj(a) for a in k.args)
+    I.contains_obj = contains_obj
 
     @reg("hash")
     def _hash(I, st, args, kw):
